@@ -36,6 +36,24 @@ for f in sorted(glob.glob(os.path.join(here, "seeded", "*", "meta.json"))):
     if m.get("strengthened"):
         how += "; " + (m["strengthened"] if isinstance(m["strengthened"], str) else "check strengthened after a first miss")
     out.append(f"| {name} | {m['summary'][:260].replace('|','/')} Needs: {str(m.get('needs',''))[:200].replace('|','/')} | {'yes' if det else 'NO'} | {how} |")
+# first outcome vs current outcome per round
+import collections
+_st = collections.OrderedDict()
+for f in sorted(glob.glob(os.path.join(here, "seeded", "*", "meta.json"))):
+    m = json.load(open(f))
+    name = f.split("/")[-2]
+    rnd = "round 4" if "-r4" in name else "round 3" if "-r3" in name else "round 2" if "-r2" in name else "round 1"
+    d = _st.setdefault(rnd, collections.Counter())
+    fd = m.get("first_run_detected", m.get("detected"))
+    fc = m.get("first_run_concrete", m.get("detected_with_concrete_input"))
+    d["n"] += 1
+    d["first_concrete" if fc else "first_noinput" if fd else "first_missed"] += 1
+    d["now_concrete" if m.get("detected_with_concrete_input") else "now_noinput" if m.get("detected") else "now_missed"] += 1
+out += ["", "First outcome per round (quick tier, the property's own check plus the cross-checks listed in meta.json) and outcome now, after the checks were strengthened; for round 1 the 'first' column is the outcome at the first re-evaluation, some of its seeds had been used to strengthen checks before:", "",
+        "| round | seeds | first: concrete input | first: no-failing-input-found | first: missed | now: concrete | now: no input | now: missed |", "|---|---|---|---|---|---|---|---|"]
+for rnd in sorted(_st):
+    d = _st[rnd]
+    out.append(f"| {rnd} | {d['n']} | {d['first_concrete']} | {d['first_noinput']} | {d['first_missed']} | {d['now_concrete']} | {d['now_noinput']} | {d['now_missed']} |")
 # per-property status from cfg + last evidence
 import sys
 sys.path.insert(0, here)
